@@ -755,6 +755,17 @@ func (env *Env) call(x *CCall) Val {
 			}
 		}
 		return Val{E: or(alts...), S: sBool, T: types.Typ[types.Bool]}
+	case "before":
+		// before(e), in a site clause: the value of e in the state just before the instruction of the site
+		if len(x.Args) != 1 {
+			env.fail("before(e)")
+		}
+		if env.ex.root().preSiteSt == nil {
+			env.fail("before() is only available in 'at <site>' clauses")
+		}
+		n := *env
+		n.st = env.ex.root().preSiteSt
+		return n.eval(x.Args[0])
 	case "athead":
 		// athead(k, e): the value of e when the head of loop #k of this function was last reached (start of the
 		// current iteration of that enclosing loop)
